@@ -24,6 +24,41 @@ HERE = os.path.dirname(os.path.dirname(os.path.abspath(__file__)))
 REPO = os.path.realpath(os.environ.get('VERIF_REPO', '/repo'))
 WORK = os.path.join(HERE, '.work')
 EVDIR = os.environ.get('VERIF_EVIDENCE_DIR') or os.path.join(HERE, 'evidence')
+
+# Every shard runs its slice of the workload in one of these interpreter environments (round robin
+# over the shards): a property has to hold whatever the flags, locale or warning filters of the
+# process are.  (name, extra interpreter arguments, environment overrides)
+ENV_MODES = [
+    ('default', [], {}),
+    ('optimize', ['-O'], {}),                                   # assert statements are stripped
+    ('warnings-as-errors', [], {'VERIF_WERROR': '1'}),          # any warning raised by library code is an exception
+    ('c-locale', [], {'LC_ALL': 'C', 'LANG': 'C', 'PYTHONUTF8': '0', 'PYTHONCOERCECLOCALE': '0'}),
+    ('default', [], {}),
+    ('hash-random', [], {'PYTHONHASHSEED': 'random'}),
+    ('optimize+warnings-as-errors', ['-OO'], {'VERIF_WERROR': '1'}),
+    ('cwd-elsewhere', [], {'VERIF_CWD': 'tmp'}),
+]
+
+
+def env_mode_of(shard):
+    return ENV_MODES[shard % len(ENV_MODES)]
+
+
+def apply_env_mode_in_child():
+    """Called first thing in a shard (or a replay child): what cannot be set from outside."""
+    if os.environ.get('VERIF_WERROR') == '1':
+        import warnings
+        warnings.simplefilter('error')
+        # the harness's own and the standard library's housekeeping stays quiet
+        warnings.filterwarnings('ignore', category=ResourceWarning)
+    if os.environ.get('VERIF_CWD') == 'tmp':
+        import tempfile
+        d = tempfile.mkdtemp(prefix='vmon-cwd-')
+        os.chdir(d)
+        os.environ.pop('HOME', None)
+        import atexit
+        import shutil
+        atexit.register(shutil.rmtree, d, True)
 MAX_VIOLATIONS_PER_KEY = 5
 MAX_SAMPLES = 12
 NCPU = 16
@@ -160,7 +195,7 @@ class Ctx:
                 case = case()
             self.violations.append({
                 'clause': clause, 'key': key, 'case': jsonable(case),
-                'detail': jsonable(detail)})
+                'detail': jsonable(detail), 'env_mode': os.environ.get('VERIF_ENVMODE', 'default')})
             self._write_partial()
 
     def _write_partial(self):
@@ -283,9 +318,11 @@ def shard_main(argv):
     seed, shard, nsh = int(seed), int(shard), int(nsh)
     import faulthandler
     faulthandler.enable()
+    apply_env_mode_in_child()
     assert_repo()
     mod = load_prop(pid)
     ctx = Ctx(pid, tier, seed, shard, nsh)
+    ctx.extra('environment_modes', {os.environ.get('VERIF_ENVMODE', 'default'): 1})
     ctx.partial_path = out + '.partial'
     limit = mod.TIMEOUT[tier]
     faulthandler.dump_traceback_later(max(limit - 5, 5), exit=False)
@@ -344,10 +381,11 @@ def run_shards(pid, tier, seed, mod):
             if os.path.exists(pth):
                 os.remove(pth)
         log = open(os.path.join(wdir, f'shard-{i}.log'), 'w')
+        mode, pyargs, envover = env_mode_of(i) if getattr(mod, 'ENV_MODES', True) else ENV_MODES[0]
         p = subprocess.Popen(
-            [sys.executable, '-B', '-m', 'vmon.core', '--shard-run',
+            [sys.executable, '-B'] + pyargs + ['-m', 'vmon.core', '--shard-run',
              pid, tier, str(seed), str(i), str(n), out],
-            stdout=log, stderr=subprocess.STDOUT, env=env, cwd=HERE)
+            stdout=log, stderr=subprocess.STDOUT, env=dict(env, VERIF_ENVMODE=mode, **envover), cwd=HERE)
         return p, out, time.time(), log
 
     def drive(todo, maxpar, final):
@@ -471,7 +509,7 @@ def write_replay(pid, tier, seed, v):
     d = os.path.join(HERE, 'replay')
     os.makedirs(d, exist_ok=True)
     body = {'property': pid, 'tier': tier, 'seed': seed, 'clause': v['clause'],
-            'key': v['key'], 'case': v['case'], 'detail': v['detail']}
+            'key': v['key'], 'case': v['case'], 'detail': v['detail'], 'env_mode': v.get('env_mode', 'default')}
     name = f"{pid}-{h64([v['clause'], v['key'], v['case']]):016x}.json"
     path = os.path.join(d, name)
     with open(path, 'w') as f:
@@ -502,6 +540,15 @@ def main(argv):
     if a.replay:
         with open(a.replay) as f:
             body = json.load(f)
+        want_mode = body.get('env_mode', 'default')
+        if want_mode != os.environ.get('VERIF_ENVMODE', 'default'):
+            # the case was found in another interpreter environment: replay it there
+            for mode, pyargs, envover in ENV_MODES:
+                if mode == want_mode:
+                    r = subprocess.run([sys.executable, '-B'] + pyargs + ['-m', 'vmon.core'] + list(argv),
+                                       env=dict(os.environ, VERIF_ENVMODE=mode, **envover), cwd=HERE)
+                    return r.returncode
+        apply_env_mode_in_child()
         ctx = Ctx(pid, body.get('tier', tier), body.get('seed', seed))
         try:
             mod.replay(ctx, unjson(body['case']))
